@@ -35,6 +35,7 @@ type HarnessFile struct {
 	Src     []byte
 	Funcs   []HarnessFunc
 	PkgName string
+	Stubs   [][2]string // (repo function full name, zzvf function) pairs
 }
 
 type HarnessFunc struct {
@@ -43,6 +44,7 @@ type HarnessFunc struct {
 }
 
 var dirRe = regexp.MustCompile(`(?m)^//vf:dir\s+(\S+)`)
+var stubRe = regexp.MustCompile(`(?m)^//vf:stub\s+(\S+)\s+(\S+)`)
 var useRe = regexp.MustCompile(`(?m)^//vf:use\s+(\S+)`)
 
 func loadHarnessFiles(prop string) ([]*HarnessFile, error) {
@@ -82,6 +84,9 @@ func loadHarnessFiles(prop string) ([]*HarnessFile, error) {
 			return nil, err
 		}
 		hf.PkgName = af.Name.Name
+		for _, m := range stubRe.FindAllSubmatch(src, -1) {
+			hf.Stubs = append(hf.Stubs, [2]string{string(m[1]), string(m[2])})
+		}
 		for _, d := range af.Decls {
 			fd, ok := d.(*ast.FuncDecl)
 			if !ok || fd.Recv != nil || !strings.HasPrefix(fd.Name.Name, "ZZ_"+prop+"_") {
@@ -161,6 +166,12 @@ func loadProgram(hfs []*HarnessFile) (*Program, map[string]*ssa.Package, error) 
 	prog, spkgs := ssautil.AllPackages(pkgs, ssa.InstantiateGenerics)
 	prog.Build()
 	P := &Program{prog: prog, fset: fset, globals: map[*ssa.Global]*Object{}, initDone: map[*ssa.Package]bool{}, repoPrefix: repoMod}
+	P.stubFns = map[string]string{}
+	for _, h := range hfs {
+		for _, st := range h.Stubs {
+			P.stubFns[st[0]] = st[1]
+		}
+	}
 	byDir := map[string]*ssa.Package{}
 	for i, p := range pkgs {
 		rel := strings.TrimPrefix(strings.TrimPrefix(p.PkgPath, repoMod), "/")
@@ -356,6 +367,7 @@ func cmdCheck(args []string) int {
 			cfg.MaxSteps = int64(atoiDef(d["steps"], int(cfg.MaxSteps)))
 			cfg.MaxVisits = atoiDef(d["visits"], cfg.MaxVisits)
 			cfg.MaxFan = atoiDef(d["fan"], cfg.MaxFan)
+			cfg.Cut = atoiDef(d["cut"], 0)
 			cfg.Witnesses = atoiDef(d["witnesses"], cfg.Witnesses)
 			if s := d["deadline"]; s != "" {
 				if dd, err := time.ParseDuration(s); err == nil {
@@ -407,6 +419,7 @@ func cmdCheck(args []string) int {
 	tRun := time.Since(t0) - tLoad - tInit
 
 	rep := newReplayer(*prop, *tier, hfs)
+	rep.P = P
 	defer rep.cleanup()
 	strictMode = *strict || *prop == "SELF"
 	code := report(*prop, *tier, seed, jobs, rep, P, time.Since(t0), !*noEvidence, *verbose, map[string]float64{"load_s": tLoad.Seconds(), "init_s": tInit.Seconds(), "explore_s": tRun.Seconds()})
